@@ -163,7 +163,11 @@ func makeProbe(c *vnet.Cluster, n *vnet.Node) (mon.Probe, bool) {
 			return mon.Probe{}, false
 		}
 		q := cand[rng.Intn(len(cand))]
-		return mon.Probe{Class: "duplicate-" + q.T.String(), AllowRecoveryReply: true, Do: recv(q.Clone())}, true
+		pr := mon.Probe{Class: "duplicate-" + q.T.String(), AllowRecoveryReply: true, Do: recv(q.Clone())}
+		if q.T == dbft.ChangeViewType {
+			pr.DupCV = q
+		}
+		return pr, true
 	}
 }
 
